@@ -9,7 +9,7 @@ CONSTANTS
   Compats = {"Standard", "LegacySip"}
   Offerers = {"A", "B"}
   Scheds = {"plain", "slowSetRemote"}
-  Renegs = {"none", "offerer", "answerer"}
+  Renegs = {"none", "offerer", "answerer", "moved"}
   Deviations = {}
   Props = {"EXT", "C10.Lattice", "C10.Signaling", "C10.Roles", "C10.Keys", "C10.Connected", "C10.DcDelivery", "C10.RtpDelivery", "C10.RtpIntact", "C10.Reneg"}
 CONSTRAINT Furthest
